@@ -21,6 +21,8 @@ func init() {
 			"The version handed to serialize and to the response object is the selected one. NOT decided: capability / session-id extraction for arbitrary hello layouts (regular expressions), read segmentation.",
 		Assumptions: []string{"ServerHasCapability is membership in the advertised list (checked: loop returns true on equality only)", "regexp semantics opaque"},
 		Mutants: []Mutant{
+			{ID: "C09-delimiter-left-to-options", Desc: "NewDriver no longer installs the hello delimiter behind the options", Rule: "C09/hello-delimiter-installed",
+				Edits: []Edit{{File: "driver/netconf/driver.go", Old: "\tncPatterns := getNetconfPatterns()\n\n\td.Channel.PromptPattern = ncPatterns.v1Dot0Delim\n\n\treturn d, nil", New: "\treturn d, nil"}}},
 			{ID: "C09-hello-raw-timeout", Desc: "the hello is read under the raw connection-wide timeout (0 expires at once)", Rule: "C09/deadline-resolved",
 				Edits: []Edit{{File: "driver/netconf/capabilities.go", Old: "\t\td.Channel.GetTimeout(d.Channel.TimeoutOps),\n", New: "\t\td.Channel.TimeoutOps,\n"}}},
 			{ID: "C09-password-prompt-unanchored", Desc: "the built-in password prompt pattern no longer has to end the line", Rule: "C09/password-prompt-anchored",
@@ -144,6 +146,8 @@ func runC09(c *Ctx, r *Report) {
 	r.Rule("C09/session-id-range", "the session-id conversion accepts the whole unsigned 32-bit range", 1)
 	r.Rule("C09/deadline-resolved", "every deadline the NETCONF driver sets up takes its duration from Channel.GetTimeout (a configured 0 means the maximum, for the hello exchange as for every RPC)", 2)
 	checkNetconfDeadlinesResolved(c, r, "C09/deadline-resolved")
+	r.Rule("C09/hello-delimiter-installed", "netconf.NewDriver stores the end-of-message delimiter into the channel's prompt pattern behind the option loop, on every path to a success return", 1)
+	checkHelloDelimiterInstalled(c, r, "C09/hello-delimiter-installed")
 	r.Rule("C09/submatch-guarded", "the session-id (and every other sub-match the NETCONF driver reads out of the server's text) is indexed only after the pattern was seen to match", 2)
 	checkSubmatchGuarded(c, r, "C09/submatch-guarded", []string{"driver/netconf"})
 	r.Rule("C09/hello-required", "a server greeting without <hello> yields ErrNetconfError", 1)
